@@ -64,6 +64,8 @@ def main():
         raise SystemExit("worktree: " + out)
     try:
         demo_dir = os.path.join(wt, "v2", "zz_demo")
+        if os.path.isdir(os.path.join(src, "zz_demo")):
+            shutil.copytree(os.path.join(src, "zz_demo"), demo_dir, dirs_exist_ok=True)
         os.makedirs(demo_dir, exist_ok=True)
         for d in demos:
             shutil.copy(d, demo_dir)
@@ -123,6 +125,9 @@ def main():
     shutil.copy(patch, os.path.join(dst, "patch.diff"))
     for d in demos:
         shutil.copy(d, dst)
+    if os.path.isdir(os.path.join(src, "zz_demo")):
+        shutil.copytree(os.path.join(src, "zz_demo"), os.path.join(dst, "zz_demo"), dirs_exist_ok=True,
+                        ignore=shutil.ignore_patterns("out", "*.gr.go", "*.gr.json"))
     if os.path.exists(os.path.join(src, "notes.md")):
         shutil.copy(os.path.join(src, "notes.md"), dst)
     json.dump(meta, open(os.path.join(dst, "meta.json"), "w"), indent=1)
